@@ -333,6 +333,13 @@ class Waiting(State):
             self.done_callback = None
         self._waiting_future = futures.Future()
 
+    def exit(self) -> None:
+        super().exit()
+        if not self._waiting_future.done():
+            # Leaving the state without having been resumed (the process was failed or killed from outside of the
+            # step): make sure ``execute`` does not keep waiting
+            self._waiting_future.set_result(NULL)
+
     def interrupt(self, reason: Any) -> None:
         # This will cause the future in execute() to raise the exception, unless it is about to return already because
         # the state was resumed or interrupted before, in which case ``Process.step`` deals with the pending request
